@@ -33,6 +33,24 @@ let pq_res_str = function
   | RNone -> "n"
   | RSome ((t, o), v) -> Printf.sprintf "s,%d,%d,%d" (int_of_z t) (int_of_n o) (int_of_z v)
 
+(* ---- ipq ---- *)
+let ipq_op_of tok =
+  match split_on ',' tok with
+  | ["i"; t; o; v] -> IInsert ((z_of_int (ios t), n_of_int (ios o)), z_of_int (ios v))
+  | ["p"] -> IPull
+  | ["k"] -> IPeek
+  | ["K"] -> IPeekKey
+  | ["x"; n] -> IExtract (nat_of_int (ios n))
+  | ["l"] -> ILen
+  | _ -> failwith ("bad ipq op " ^ tok)
+let ipq_res_str = function
+  | IRUnit -> "u"
+  | IRNone -> "n"
+  | IRSome ((t, o), v) -> Printf.sprintf "s,%d,%d,%d" (int_of_z t) (int_of_n o) (int_of_z v)
+  | IRKey (t, o) -> Printf.sprintf "s,%d,%d" (int_of_z t) (int_of_n o)
+  | IRLen n -> Printf.sprintf "l,%d" (int_of_nat n)
+  | IRPanic -> "PANIC"
+
 (* ---- sinks ---- *)
 let sink_op_of tok =
   match split_on ',' tok with
@@ -47,6 +65,8 @@ let run_case line =
   match words line with
   | "pq" :: ops ->
       String.concat " " (List.map pq_res_str (x_pq_run (List.map pq_op_of ops)))
+  | "ipq" :: ops ->
+      String.concat " " (List.map ipq_res_str (x_ipq_run (List.map ipq_op_of ops)))
   | "ebuf" :: cap :: o :: ops ->
       String.concat " " (List.map optz_str
         (x_ebuf_run (nat_of_int (ios cap)) (bool_of o) (List.map sink_op_of ops)))
